@@ -24,7 +24,7 @@ class Cache:
     cols: dict[UUID, Col]  # all columns in current scope (including hidden ones)
 
     # the following are only necessary for subquery detection
-    limit: int
+    limit: int | None  # `None`: no `slice_head` in the current query (0 is a valid limit)
     group_by: set[UUID]
     is_filtered: bool
     # whether a `summarize` is part of the current query (`group_by` is empty for a
@@ -88,7 +88,7 @@ class Cache:
             partition_by=[],
             derived_from={node},
             cols={col._uuid: col for col in node.cols.values()},
-            limit=0,
+            limit=None,
             group_by=set(),
             is_filtered=False,
             is_summarized=False,
@@ -178,7 +178,7 @@ class Cache:
             res.uuid_to_name = {uid: name for name, uid in res.name_to_uuid.items()}
 
             res.derived_from = self.derived_from | right_cache.derived_from
-            res.limit = 0
+            res.limit = None
             res.group_by = set()
             res.is_summarized = False
 
@@ -201,7 +201,7 @@ class Cache:
             res.uuid_to_name = self.uuid_to_name.copy()
 
             res.derived_from = self.derived_from | right_cache.derived_from
-            res.limit = 0
+            res.limit = None
             res.group_by = set()
             res.is_summarized = False
 
@@ -216,7 +216,7 @@ class Cache:
                 )
                 for uid, col in self.cols.items()
             }
-            res.limit = 0
+            res.limit = None
             res.group_by = set()
             res.is_filtered = False
             res.is_summarized = False
@@ -238,7 +238,7 @@ class Cache:
                 node,
                 verbs.Filter | verbs.Summarize | verbs.Arrange | verbs.GroupBy | verbs.Join | verbs.Union,
             )
-            and self.limit != 0
+            and self.limit is not None
         ):
             return f"`{node.__class__.__name__.lower()}` after `slice_head`"
 
@@ -246,7 +246,7 @@ class Cache:
         # the SELECT they are part of.
         if (
             isinstance(node, verbs.Mutate)
-            and self.limit != 0
+            and self.limit is not None
             and any(
                 isinstance(fn, ColFn) and fn.op.ftype in (Ftype.AGGREGATE, Ftype.WINDOW) for fn in node.iter_col_nodes()
             )
